@@ -179,11 +179,12 @@ def _coverage(ctx, spec, results, ov, build_s, replays=0):
             "failed": [{"description": x["description"], "at": "%s:%s" % (x["file"], x["line"])} for x in r["failed"][:5]],
             "replay": r.get("replay"),
         })
-    ctx.coverage.update({
+    prev = ctx.coverage if ctx.coverage.get("_k_runs") else None
+    cov = {
         "states": max(steps, 1) if results else 0,
         "transitions": max(clauses, vccs, 1) if results else 0,
         "traces_validated_against_impl": replays,
-        "samples": samples if samples else [{"note": "no harness ran"}],
+        "samples": samples if samples else [{"note": "no harness ran", "package": spec.package}],
         "exhaustive": bool(results) and passed == len(results),
         "explanation": "states = CBMC symbolic-execution steps summed over harnesses; transitions = SAT clauses (or VCCs) summed; "
                        "each harness is decided by CBMC/cadical for ALL values of its symbolic inputs inside the stated bounds",
@@ -191,14 +192,23 @@ def _coverage(ctx, spec, results, ov, build_s, replays=0):
         "harnesses_passed": passed,
         "cbmc_properties_checked": nprops,
         "vccs": vccs,
-        "functions_encoded": spec.encoded,
-        "bounds": spec.bounds,
-        "outside_the_claim": spec.outside,
-        "overlay_differences": ov.applied if ov else [],
+        "functions_encoded": list(spec.encoded),
+        "bounds": list(spec.bounds),
+        "outside_the_claim": list(spec.outside),
+        "overlay_differences": list(ov.applied) if ov else [],
         "kani_build_s": round(build_s, 1),
         "solver_time_s": round(sum((r["stats"].get("solver_s") or 0) for r in results), 2),
         "tools": "Kani 0.68.0 (kani-compiler, --only-codegen) + CBMC 6.11.0 + cadical; driver /verif/engine/kani_run.py",
-    })
+        "_k_runs": 1,
+    }
+    if prev:
+        for k in ("states", "transitions", "traces_validated_against_impl", "harnesses_run", "harnesses_passed",
+                  "cbmc_properties_checked", "vccs", "kani_build_s", "solver_time_s", "_k_runs"):
+            cov[k] = prev.get(k, 0) + cov[k]
+        for k in ("samples", "functions_encoded", "bounds", "outside_the_claim", "overlay_differences"):
+            cov[k] = prev.get(k, []) + [x for x in cov[k] if x not in prev.get(k, [])]
+        cov["exhaustive"] = bool(prev.get("exhaustive")) and cov["exhaustive"]
+    ctx.coverage.update(cov)
     for a in spec.assumptions:
         if a not in ctx.assumptions:
             ctx.assumptions.append(a)
